@@ -478,21 +478,27 @@ def cms(name, sensors):
     return {'kind': 'cms', 'name': name, 'sensors': list(sensors)}
 
 
-def SENS(K=0, horizon=5, interval=1, cap=2, n=1, ocap=None, callbacks=2, cms_twice=True, second=None, ops=None):
+def SENS(K=0, horizon=5, interval=1, cap=2, n=1, ocap=None, callbacks=2, cms_twice=True, second=None, ops=None,
+         placeholder=None, two_cms=False):
     '''A processor under an output-part sensor, periodic sensors on a mutable object, a CMS.'''
     wo = {'x': [1, 1, 0]}
     devs = [src('S', 1, qualities=[1, 0.5, 0.25, 0.75], values=[1, 2, 3]), proc('M1', ['S'], 1, wo=wo, dq=-0.25, auto_repair='x'),
             sink('K', ['M1']), maint(1), obj('o1'),
             psensor('P', interval, [('o1', 'x'), ('o1', 'n')], cap, callbacks),
             osensor('O', 'M1', ['quality', 'id'], n, ocap, 1)]
+    if placeholder:
+        devs[-1]['placeholder'] = placeholder
     names = ['P', 'O'] + (['P'] if cms_twice else [])
     if second is not None:
         devs.append(psensor('P2', second, [('o1', 'n')], 1, 1))
         names.append('P2')
     devs.append(cms('C', names))
+    if two_cms:
+        devs.append(cms('Cb', ['O']))           # a second CMS watching only ONE of the sensors the first one watches
     if ops is None:
         ops = [('bump', 'o1'), ('fail', 'M1', 0), ('wo', 'M1', 'x'), ('restore', 'M1')]
-    nm = f'SENS[i{interval},c{cap},n{n},oc{ocap},cb{callbacks}{",2nd" + str(second) if second else ""},K{K}]'
+    nm = (f'SENS[i{interval},c{cap},n{n},oc{ocap},cb{callbacks}{",2nd" + str(second) if second else ""}'
+          f'{",ph=" + placeholder if placeholder else ""}{",2cms" if two_cms else ""},K{K}]')
     return spec(nm, devs, horizon, ops, K)
 
 
